@@ -41,7 +41,8 @@ def mk_tx(rng, scripts, nout=1, version=1, locktime=0, seqs=None):
     for i, sc in enumerate(scripts):
         tx["vin"].append({"outpoint": rng.bytes(32) + struct.pack("<I", i),
                           "script": sc,
-                          "sequence": struct.pack("<I", (seqs or {}).get(i, 0xffffffff))})
+                          "sequence": struct.pack("<I", (seqs or {}).get(
+                              i, (0xfffffffd, 0xffffffff, 0x00400005)[i % 3]))})
     for i in range(nout):
         tx["vout"].append({"value": struct.pack("<q", 1000 + i),
                            "script": b"\xa9\x14" + rng.bytes(20) + b"\x87"})
